@@ -59,6 +59,14 @@ HARNESSES += [
 ]
 
 
+def _mx(r, n, w, **kw): return dict({'R_' + r.upper(): 1, 'NA': 1, 'NB': 1, 'A0': n, 'B0': n, 'WIDE': w, '_unwindset': US}, **kw)
+_MIXQ = {'outer': [0, 1], 'dot': [0], 'tensordot': [1], 'kron': [], 'vecdot': [], 'inner': []}   # measured: outer < 30 s, dot / tensordot 135-215 s, kron 260-270 s (kissat); vecdot out of memory at 6 GB, inner no verdict in 600 s
+HARNESSES += [dict(name=r + '_mixed', src='harnesses/C16_other.c', func='h_mixed', kernels=['C16_' + r], unwind=18, backend='kissat', timeout=900, optional=r in ('vecdot', 'inner'), mem_gb=6 if r not in ('vecdot', 'inner') else 14,
+                   bounds='view::%s of two 1-d operands of DIFFERENT element types (uint8 and uint16 = 256 + byte; WIDE selects the uint16 side), N = 2 (thorough 3) cells each: the element type of the result is a common type of both '
+                          '(uint16 or int, never the narrower operand type) and the element is the definition evaluated in that type; data symbolic' % r,
+                   quick=[_mx(r, 2, w) for w in _MIXQ[r]], thorough=[_mx(r, 2, w, _timeout=1800) for w in (0, 1)]) for r in ('outer', 'vecdot', 'dot', 'inner', 'kron', 'tensordot')]
+
+
 def _s(routine, func, dims, what, **kw):
     """result SHAPE with symbolic extents (dims are per-query constants), through the real view composition, no element read"""
     R = 'R_' + routine.upper()
